@@ -170,7 +170,7 @@ impl Scenario for C05S {
         }
     }
     fn rule(&self) -> &'static str {
-        "case = 1..8 regions per message, each from_bytes(random contents) or from_byte(fill, len), lengths dense around 0, 1, 7/8/9, page-1/page/page+1, 2 pages +-1 plus random up to 256 KiB (quick) / 32 MiB (thorough), cloned 0..3 times before sending, in random order, optionally next to an endpoint and a multi-packet data part; received by a thread or a sim-process; one case in eight is the forked-child family (regions created, cloned and queued in a message, then a real fork(): the child - a copy of the library's statics and mappings, running outside the simulation - compares the inherited regions, receives the queued message, creates regions of its own, parked inside its first creation while the parent creates more); contents compared in the creator, every clone, the receiver, and again after the sender's copies, the message and the carrying channel are gone (optionally after the sending sim-process crashed); non-trivial = at least one region of non-zero length that is not a multiple of 8; distinct = distinct (case, schedule hash)"
+        "case = 1..8 regions per message, each from_bytes(random contents) or from_byte(fill, len), lengths dense around 0, 1, 7/8/9, page-1/page/page+1, 2 pages +-1 plus random up to 256 KiB (quick) / 32 MiB (thorough), cloned 0..3 times before sending, placed in the message in a seeded permutation of the creation order, optionally next to an endpoint and a multi-packet data part; received by a thread or a sim-process; one case in eight is the forked-child family (regions created, cloned and queued in a message, then a real fork(): the child - a copy of the library's statics and mappings, running outside the simulation - compares the inherited regions, receives the queued message, creates regions of its own, on the shm_open build parked inside its first creation - the named object still existing - while the parent creates more; on the memfd build, which has no named object, the child simply runs to its end first); contents compared in the creator, every clone, the creator's copies again after the send, the receiver, and again after the sender's copies, the message and the carrying channel are gone (optionally after the sending sim-process crashed); non-trivial = at least one region of non-zero length that is not a multiple of 8; distinct = distinct (case, schedule hash)"
     }
     fn gen(&self, seed: u64, idx: u64, tier: Tier, variant: &str) -> Value {
         let mut r = Rng::stream(seed, idx.wrapping_mul(2654435761).wrapping_add(0xC05));
@@ -224,7 +224,12 @@ impl Scenario for C05S {
             }
             sim["faults"] = json!(f);
         }
-        json!({"sim": sim, "regs": regs, "noise": noise, "pad": if noise || r.chance(1, 5) { r.range(5000, 30000) } else { 0 }, "extra": r.chance(1, 3),
+        // position of each region inside the message: a seeded permutation of the creation order
+        let mut order: Vec<u64> = (0..regs.len() as u64).collect();
+        for i in (1..order.len()).rev() {
+            order.swap(i, r.below(i as u64 + 1) as usize);
+        }
+        json!({"sim": sim, "regs": regs, "order": order, "noise": noise, "pad": if noise || r.chance(1, 5) { r.range(5000, 30000) } else { 0 }, "extra": r.chance(1, 3),
                "receiver_proc": variant != "inproc" && r.chance(1, 2), "sender_proc_crash": crash})
     }
     fn run(&self, p: &Value) -> Outcome {
@@ -234,6 +239,16 @@ impl Scenario for C05S {
         let mut out = Outcome::default();
         start_sim(p);
         let specs: Vec<Value> = p["regs"].as_array().cloned().unwrap_or_default().into_iter().take(8).collect();
+        let mut order: Vec<usize> = p["order"].as_array().map(|a| a.iter().filter_map(|x| x.as_u64()).map(|x| x as usize).collect()).unwrap_or_default();
+        {
+            // (anything but a permutation of 0..n - e.g. after minimisation - falls back to creation order)
+            let mut sorted = order.clone();
+            sorted.sort();
+            if sorted != (0..specs.len()).collect::<Vec<_>>() {
+                order = (0..specs.len()).collect();
+            }
+        }
+        let order_r = order.clone();
         let (tx, rx) = ipc::channel::<M5>().unwrap();
         let (rtx, rrx) = ipc::channel::<u32>().unwrap(); // "receiver finished first pass" / release
         let specs_r = specs.clone();
@@ -242,7 +257,7 @@ impl Scenario for C05S {
                 Ok(m) => {
                     hist::log("recv.ok", m.regs.len() as i64, 0, 0, "");
                     for (k, (i, g)) in m.regs.iter().enumerate() {
-                        if *i as usize != k {
+                        if order_r.get(k) != Some(&(*i as usize)) {
                             hist::log("order", k as i64, *i as i64, 0, "");
                         }
                         if let Some(sp) = specs_r.get(*i as usize) {
@@ -291,12 +306,15 @@ impl Scenario for C05S {
                 for _ in 0..sp["clones"].as_u64().unwrap_or(0).min(3) {
                     let c = last.clone();
                     check("clone", i, &c, &want);
-                    keep.push(last);
+                    keep.push((i, last));
                     last = c;
                 }
-                keep.push(g);
+                keep.push((i, g));
                 regs.push((i as u32, last));
             }
+            // arrange the regions in the message as the case says
+            let mut slots: Vec<Option<(u32, IpcSharedMemory)>> = regs.into_iter().map(Some).collect();
+            let regs: Vec<(u32, IpcSharedMemory)> = order.iter().filter_map(|&i| slots.get_mut(i).and_then(|s| s.take())).collect();
             let (etx, erx) = ipc::channel::<u32>().unwrap();
             std::mem::forget(erx);
             let m = M5 { regs, pad: vec![0x33; pad], extra: if extra { Some(etx) } else { None } };
@@ -312,8 +330,8 @@ impl Scenario for C05S {
                 sim::crash_now();
             }
             // creator's copies still read the same after sending
-            for (k, g) in keep.iter().enumerate() {
-                let _ = (k, g.len());
+            for (i, g) in keep.iter() {
+                check("creator-after-send", *i, g, &expect_bytes(&specs_s[*i]));
             }
             drop(keep);
             drop(tx);
